@@ -144,6 +144,9 @@ pub struct Conn {
     pub gates: Vec<Gate>,
     /// the previous write call accepted only part of the buffer it was offered
     pub last_write_partial: bool,
+    /// outbound stalls: once `offset` bytes are out, the transport accepts nothing more until
+    /// `blocks` write calls have found it busy
+    pub wgates: Vec<Gate>,
 }
 
 #[derive(Clone, Copy, Debug, Serialize)]
@@ -238,6 +241,7 @@ impl World {
             scheduled: Vec::new(),
             gates: Vec::new(),
             last_write_partial: false,
+            wgates: Vec::new(),
             held: Vec::new(),
             close_after_drain: false,
             n_io: 0,
@@ -692,6 +696,19 @@ impl World {
                 FaultKind::Eof => unreachable!(),
             };
         }
+        // a transport whose send buffer is full: nothing is accepted for now
+        {
+            let c = &mut self.conns[conn];
+            let out_len = c.out.bytes.len();
+            c.wgates.retain(|g| g.blocks > 0);
+            if let Some(g) = c.wgates.iter_mut().find(|g| g.offset <= out_len) {
+                g.blocks -= 1;
+                self.pend_why = Some(PendWhy::ReadEmpty);
+                let now = vtime::now();
+                self.ev(Ev::Io { conn, kind: IoKind::Write, req: buf.len(), ans: IoAns::Pending(PendWhy::ReadEmpty), t: now });
+                return Poll::Pending;
+            }
+        }
         // a slow transport: time passes between the pieces of a partially accepted buffer
         if self.conns[conn].last_write_partial && self.conns[conn].policy.slow_write_us > 0 && !self.slow_write_done {
             // (once per operation: a transport that is slow all the time looks like a dead peer)
@@ -707,6 +724,11 @@ impl World {
         let mut k = Self::chunk(c, mode, buf.len());
         // do not run past an OutBytes fault boundary
         let out_len = c.out.bytes.len();
+        for g in &c.wgates {
+            if g.offset > out_len {
+                k = k.min(g.offset - out_len);
+            }
+        }
         for f in &c.faults {
             if let FaultAt::OutBytes(n) = f.at {
                 if n > out_len {
